@@ -184,8 +184,10 @@ static void io_write_next_mono(struct snapraid_io* io, block_off_t blockcur, int
 	(void)skip;
 
 	/* report errors */
-	for (i = 0; i < IO_WRITER_ERROR_MAX; ++i)
+	for (i = 0; i < IO_WRITER_ERROR_MAX; ++i) {
 		writer_error[i] = io->writer_error[i];
+		io->writer_error[i] = 0;
+	}
 }
 
 static void io_refresh_mono(struct snapraid_io* io)
@@ -243,11 +245,17 @@ static void io_parity_write_mono(struct snapraid_io* io, unsigned* pos, unsigned
 	worker = &io->writer_map[i];
 	task = &worker->task_map[0];
 
-	io->writer_error[i] = 0;
-
 	/* do the work */
-	if (task->state != TASK_STATE_EMPTY)
+	if (task->state != TASK_STATE_EMPTY) {
+		int error_index;
+
 		worker->func(worker, task);
+
+		/* counts the number of errors in the global state */
+		error_index = task->state - IO_WRITER_ERROR_BASE;
+		if (error_index >= 0 && error_index < IO_WRITER_ERROR_MAX)
+			++io->writer_error[error_index];
+	}
 
 	/* return the position */
 	*pos = i;
@@ -261,10 +269,16 @@ static void io_start_mono(struct snapraid_io* io,
 	block_off_t blockstart, block_off_t blockmax,
 	bit_vect_t* block_enabled)
 {
+	unsigned i;
+
 	io->block_start = blockstart;
 	io->block_max = blockmax;
 	io->block_enabled = block_enabled;
 	io->block_next = blockstart;
+
+	/* clear writer errors */
+	for (i = 0; i < IO_WRITER_ERROR_MAX; ++i)
+		io->writer_error[i] = 0;
 }
 
 static void io_stop_mono(struct snapraid_io* io)
